@@ -705,7 +705,7 @@ pub const C08: PropDef = PropDef {
 Oracle: the bytes written by try_stream_replace_all and by try_stream_replace_all_with == reference model replace_all on the concatenation == in-memory replace_all_bytes; the closure variant must be handed exactly the model's match sequence (absolute offsets) and bytes == stream[match range]. Only the concatenated output is compared. \
 Non-trivial = the buffer rolled at least once and at least one applied replacement changes the length. Distinct = distinct case fingerprint.",
     assumptions: &["buffer-capacity hook as in C07", "reference model replace_all = splice of the model iterator"],
-    cases_quick: 160_000,
+    cases_quick: 250_000,
     cases_thorough: 3_000_000,
     strategy: c08_strategy,
     check: c08_check,
